@@ -10,6 +10,7 @@ import (
 	"math/rand"
 	"os"
 	"os/exec"
+	"sort"
 	"strconv"
 	"strings"
 	"time"
@@ -28,7 +29,7 @@ import (
 // C13 — hostile / unsupported server content cannot crash or wedge the client.
 
 type c13Case struct {
-	Bare bool `json:"bare,omitempty"`
+	Bare  bool `json:"bare,omitempty"`
 	Name  string
 	Site  *origin.Site
 	Entry string
@@ -560,6 +561,63 @@ func c13Cases(seed int64, tier string) []*c13Case {
 		site.Files[base+"hint.mp4"] = []byte("garbage")
 		return base + "s.m3u8"
 	})
+	// byte-range tags in every inconsistent combination over segments of one resource (with and
+	// without offset, missing on the previous segment, beyond the end of the file)
+	{
+		all := append(append(append([]byte{}, tsSegs[0]...), tsSegs[1]...), tsSegs[2]...)
+		l0, l1, l2 := len(tsSegs[0]), len(tsSegs[1]), len(tsSegs[2])
+		forms := map[string][3]string{
+			"none-then-length":         {"", fmt.Sprint(l1), fmt.Sprint(l2)},
+			"length-only-first":        {fmt.Sprint(l0), fmt.Sprint(l1), fmt.Sprint(l2)},
+			"offset-none-length":       {fmt.Sprintf("%d@0", l0), "", fmt.Sprint(l2)},
+			"offset-length-none":       {fmt.Sprintf("%d@0", l0), fmt.Sprint(l1), ""},
+			"beyond-the-end":           {fmt.Sprintf("%d@0", l0), fmt.Sprintf("%d@%d", l1, len(all)+10), fmt.Sprintf("%d@%d", l2, l0)},
+			"zero-length":              {"0@0", fmt.Sprint(l1), "0"},
+			"huge":                     {"18446744073709551615@0", "18446744073709551615", "1@18446744073709551615"},
+			"other-uri-in-between":     {fmt.Sprintf("%d@0", l0), "OTHER", fmt.Sprint(l2)},
+			"all-offsets-out-of-order": {fmt.Sprintf("%d@%d", l2, l0+l1), fmt.Sprintf("%d@0", l0), fmt.Sprintf("%d@%d", l1, l0)},
+		}
+		names := make([]string, 0, len(forms))
+		for k := range forms {
+			names = append(names, k)
+		}
+		sort.Strings(names)
+		for _, k := range names {
+			f := forms[k]
+			for _, live := range []bool{false, true} {
+				k, f, live := k, f, live
+				nm := "playlist/byterange-" + k
+				if live {
+					nm += "-live"
+				}
+				add(nm, func(site *origin.Site, base string) string {
+					var sb strings.Builder
+					sb.WriteString("#EXTM3U\n#EXT-X-VERSION:4\n#EXT-X-TARGETDURATION:1\n")
+					if !live {
+						sb.WriteString("#EXT-X-PLAYLIST-TYPE:VOD\n")
+					}
+					for i := 0; i < 3; i++ {
+						sb.WriteString("#EXTINF:0.08,\n")
+						uri := "all.ts"
+						if f[i] == "OTHER" {
+							uri = "other.ts"
+						} else if f[i] != "" {
+							sb.WriteString("#EXT-X-BYTERANGE:" + f[i] + "\n")
+						}
+						sb.WriteString(uri + "\n")
+					}
+					if !live {
+						sb.WriteString("#EXT-X-ENDLIST\n")
+					}
+					site.Static[base+"s.m3u8"] = sb.String()
+					site.Files[base+"all.ts"] = all
+					site.Files[base+"other.ts"] = tsSegs[1]
+					return base + "s.m3u8"
+				})
+			}
+		}
+	}
+
 	// Low-Latency playlists that stop being Low-Latency on a later reload
 	for _, mode := range []string{"hint-disappears", "endlist-without-hint", "server-control-disappears", "becomes-multivariant", "reload-404", "reload-garbage"} {
 		mode := mode
